@@ -1,8 +1,8 @@
 #!/bin/bash
-# tools/seedconfirm.sh <seed dir with patch.diff + demo_test.go> <demo target dir (repo-relative)> <-run regex>
+# tools/seedconfirm.sh <seed dir with patch.diff + demo_test.go> <demo target dir (repo-relative)> <-run regex> [extra go test flags, e.g. -race]
 # Confirms in a scratch worktree of /repo: (1) suite passes with the change, (2) demo fails with it, (3) demo passes without it.
 set -u
-sd=$1; target=$2; runre=$3
+sd=$1; target=$2; runre=$3; extra=${4:-}
 wt=/tmp/confirm_$$
 git -C /repo worktree add -q --detach $wt HEAD || exit 2
 trap 'git -C /repo worktree remove --force '$wt' >/dev/null 2>&1; rm -rf '$wt EXIT
@@ -17,7 +17,7 @@ for try in 1 2 3; do
   break
 done
 mkdir -p $target && cp $(ls $sd/demo_test.go $sd/demo_test.go.txt 2>/dev/null | head -1) $target/zz_demo_test.go
-with=$(go test -p 1 -vet=off -count=1 -run "$runre" ./$target/ 2>&1 | tail -3 | grep -cE "^(FAIL|---\s*FAIL)")
+with=$(go test $extra -p 1 -vet=off -count=1 -run "$runre" ./$target/ 2>&1 | tail -3 | grep -cE "^(FAIL|---\s*FAIL)")
 git apply -R $sd/patch.diff
-without=$(go test -p 1 -vet=off -count=1 -run "$runre" ./$target/ 2>&1 | tail -3 | grep -cE "^ok")
+without=$(go test $extra -p 1 -vet=off -count=1 -run "$runre" ./$target/ 2>&1 | tail -3 | grep -cE "^ok")
 echo "CONFIRM $(basename $sd): suite_with_change=$suite demo_fails_with_change=$([ $with -gt 0 ] && echo yes || echo NO) demo_passes_without=$([ $without -gt 0 ] && echo yes || echo NO)"
